@@ -198,8 +198,17 @@ def main(argv=None) -> int:
             for r in pool.imap(_run_task, tasks, chunksize=1):
                 results.append(r)
                 print(f"  .. {r['label']}: {r['verdict']} ({r.get('wall_s', 0):.1f}s)", file=sys.stderr, flush=True)
+    # engine validation on the repository's own tests (through the interpreter), every run
+    selftest = None
+    if a.only is None:
+        from vrf import selftest as _st
+        selftest = _st.run()
+        if selftest["failed"]:
+            print("ENGINE-SELFTEST FAILED (interpreter disagrees with CPython on the repository's own tests):")
+            for f in selftest["failed"][:5]:
+                print("  ", f[:400])
     known = load_known(prop)
-    rc = 0
+    rc = 0 if not (selftest and selftest["failed"]) else 2
     violations = 0
     known_hits = []
     lines = []
@@ -266,7 +275,7 @@ def main(argv=None) -> int:
     print(f"[{prop}] tier={tier} lemmas={len(lemmas)} tasks={len(tasks)} violations={violations} "
           f"known_findings_hit={len(seen)} exit={rc} wall={wall:.1f}s")
     if not a.no_evidence and a.only is None:
-        write_evidence(prop, tier, seed, lemmas, results, violations, sorted(seen), wall, rc)
+        write_evidence(prop, tier, seed, lemmas, results, violations, sorted(seen), wall, rc, selftest)
     return rc
 
 
@@ -280,7 +289,7 @@ def _summary(r) -> str:
     return "error"
 
 
-def write_evidence(prop, tier, seed, lemmas, results, violations, known_hit, wall, rc):
+def write_evidence(prop, tier, seed, lemmas, results, violations, known_hit, wall, rc, selftest=None):
     funcs = {}
     paths = obligations = nontriv = replayed = qs = qu = qk = 0
     solver_s = 0.0
@@ -329,6 +338,8 @@ def write_evidence(prop, tier, seed, lemmas, results, violations, known_hit, wal
             "obligations_valid": obligations, "queries": {"sat": qs, "unsat": qu, "unknown": qk},
             "solver_time_s": round(solver_s, 2), "functions_encoded": funcs, "lemmas": per_lemma, "bounds": bounds,
             "stubs": sorted(stubs), "known_findings_hit": [list(k) for k in known_hit], "exit_code": rc,
+            "engine_selftest": ({"repo_tests_run_through_interpreter": selftest["ran"], "passed": selftest["passed"],
+                                 "failed": selftest["failed"][:5], "skipped": selftest["skipped"][:10]} if selftest else None),
             "explanation": "bounded symbolic execution of the current /repo source by symx (AST interpreter -> z3); "
                            "each feasible path is also replayed natively in CPython on a model of its path condition",
         },
